@@ -17,6 +17,7 @@ type targetPanic struct {
 	v   value  // the panic value (an iface)
 	msg string // printable message
 	rt  bool   // runtime error (nil deref, index, ...)
+	where string
 }
 
 // pathEnd ends the current path.
@@ -61,6 +62,7 @@ type Interp struct {
 
 	run *runState
 	exp *Explorer
+	curFrame *frame
 
 	Steps    int64
 	MaxSteps int64
@@ -279,7 +281,14 @@ func (fr *frame) runDefers() {
 
 func (in *Interp) rtPanic(format string, a ...interface{}) {
 	msg := "runtime error: " + fmt.Sprintf(format, a...)
-	panic(targetPanic{v: iface{t: in.runtimeErrorType(), v: msg}, msg: msg, rt: true})
+	panic(targetPanic{v: iface{t: in.runtimeErrorType(), v: msg}, msg: msg, rt: true, where: in.where()})
+}
+
+func (in *Interp) where() string {
+	if in.curFrame == nil {
+		return ""
+	}
+	return in.Prog.Fset.Position(in.curFrame.pos).String() + " in " + targetStack(in.curFrame)
 }
 
 func (in *Interp) runtimeErrorType() types.Type {
@@ -530,6 +539,7 @@ func (in *Interp) derefPtr(p value, what string) *value {
 
 func (in *Interp) visitInstr(fr *frame, instr ssa.Instruction) continuation {
 	fr.pos = instr.Pos()
+	in.curFrame = fr
 	switch instr := instr.(type) {
 	case *ssa.DebugRef:
 
@@ -590,6 +600,11 @@ func (in *Interp) visitInstr(fr *frame, instr ssa.Instruction) continuation {
 		panic(unsupported{fmt.Sprintf("concurrency instruction %T in %s", instr, fr.fn)})
 
 	case *ssa.Store:
+		if sp, ok := fr.get(instr.Addr).(*symPtr); ok {
+			i := in.concretize(sp.idx, "store through symbolic index").(int64)
+			in.store(deref(instr.Addr.Type()), sp.cells[i], fr.get(instr.Val))
+			break
+		}
 		addr := in.derefPtr(fr.get(instr.Addr), "store")
 		in.store(deref(instr.Addr.Type()), addr, fr.get(instr.Val))
 
@@ -648,6 +663,14 @@ func (in *Interp) visitInstr(fr *frame, instr ssa.Instruction) continuation {
 		fr.env[instr] = fr.get(instr.Iter).(iter).next()
 
 	case *ssa.FieldAddr:
+		if sp, ok := fr.get(instr.X).(*symPtr); ok {
+			np := &symPtr{idx: sp.idx, cells: make([]*value, len(sp.cells))}
+			for k, c := range sp.cells {
+				np.cells[k] = &(*c).(structure)[instr.Field]
+			}
+			fr.env[instr] = np
+			break
+		}
 		p := in.derefPtr(fr.get(instr.X), "fieldaddr")
 		fr.env[instr] = &(*p).(structure)[instr.Field]
 
@@ -658,6 +681,10 @@ func (in *Interp) visitInstr(fr *frame, instr ssa.Instruction) continuation {
 		x := fr.get(instr.X)
 		switch x := x.(type) {
 		case []value:
+			if sp := in.symIndexAddr(x, fr.get(instr.Index)); sp != nil {
+				fr.env[instr] = sp
+				break
+			}
 			i := in.indexCheck(fr.get(instr.Index), len(x))
 			fr.env[instr] = &x[i]
 		case *value:
@@ -665,6 +692,10 @@ func (in *Interp) visitInstr(fr *frame, instr ssa.Instruction) continuation {
 				in.rtPanic("invalid memory address or nil pointer dereference")
 			}
 			a := (*x).(array)
+			if sp := in.symIndexAddr(a, fr.get(instr.Index)); sp != nil {
+				fr.env[instr] = sp
+				break
+			}
 			i := in.indexCheck(fr.get(instr.Index), len(a))
 			fr.env[instr] = &a[i]
 		default:
@@ -701,6 +732,98 @@ func (in *Interp) visitInstr(fr *frame, instr ssa.Instruction) continuation {
 		panic(unsupported{fmt.Sprintf("unexpected instruction: %T", instr)})
 	}
 	return kNext
+}
+
+// symPtr is the address of an element selected by a symbolic index out of
+// concretely known cells; loads become ite-chains.
+type symPtr struct {
+	cells []*value
+	idx   *Sym
+}
+
+// symIndexAddr returns a symPtr for a symbolic index into a small array of
+// scalars/structs (after the bounds check), or nil to fall back.
+func (in *Interp) symIndexAddr(a []value, idx value) *symPtr {
+	s, ok := idx.(*Sym)
+	if !ok || len(a) == 0 || len(a) > 1024 {
+		return nil
+	}
+	if !in.branch(in.inRangeTerm(s, int64(len(a)))) {
+		in.rtPanic("index out of range [symbolic] with length %d", len(a))
+	}
+	sp := &symPtr{idx: s, cells: make([]*value, len(a))}
+	for k := range a {
+		sp.cells[k] = &a[k]
+	}
+	return sp
+}
+
+// loadSym loads through a symPtr: ite-chain over runs of equal scalar values.
+func (in *Interp) loadSym(sp *symPtr, T types.Type) value {
+	b := basicOf(T)
+	if b == nil {
+		// aggregate: concretise the index
+		i := in.concretize(sp.idx, "symbolic element index").(int64)
+		return load(T, sp.cells[i])
+	}
+	var sort Sort
+	if b.Kind() == types.Bool {
+		sort = BoolSort
+	} else if w, _ := intInfo(b.Kind()); w != 0 {
+		sort = BV(w)
+	} else {
+		i := in.concretize(sp.idx, "symbolic element index").(int64)
+		return load(T, sp.cells[i])
+	}
+	allConc := true
+	for _, c := range sp.cells {
+		if _, ok := (*c).(*Sym); ok {
+			allConc = false
+		}
+	}
+	n := len(sp.cells)
+	term := func(k int) *Term {
+		v := *sp.cells[k]
+		if sv, ok := v.(*Sym); ok && sv.T.Sort != sort {
+			return in.coerce(sv.T, sort, true)
+		}
+		return in.toTerm(v, sort)
+	}
+	idxConst := func(k int) *Term {
+		if sp.idx.T.Sort.K == SInt {
+			return IntConst(int64(k))
+		}
+		return BVConst(int64(k), sp.idx.T.Sort.W)
+	}
+	le := func(k int) *Term {
+		if sp.idx.T.Sort.K == SInt {
+			return in.TC.App(BoolSort, "<=", sp.idx.T, idxConst(k))
+		}
+		return in.TC.App(BoolSort, "bvule", sp.idx.T, idxConst(k))
+	}
+	res := term(n - 1)
+	k := n - 2
+	for k >= 0 {
+		// run of equal values ending at k
+		cur := term(k)
+		j := k
+		if allConc {
+			for j > 0 && term(j-1).S == cur.S {
+				j--
+			}
+		}
+		if cur.S != res.S {
+			res = in.TC.Ite(le(k), cur, res)
+		}
+		k = j - 1
+	}
+	if sort.K == SBool {
+		return symOrBool(res)
+	}
+	if _, ok := isConstBV(res); ok && allConc {
+		return *sp.cells[n-1]
+	}
+	return &Sym{T: res}
 }
 
 // mapKey normalises a key for map use (concretises fully-concrete SymStr).
@@ -798,6 +921,9 @@ func (in *Interp) inRangeTerm(i *Sym, n int64) *Term {
 		return in.TC.And(in.TC.App(BoolSort, "<=", IntConst(0), i.T), in.TC.App(BoolSort, "<", i.T, IntConst(n)))
 	}
 	// as unsigned compare covers negatives for signed ints
+	if w := i.T.Sort.W; w < 63 && n >= int64(1)<<uint(w) {
+		return TrueT
+	}
 	return in.TC.App(BoolSort, "bvult", i.T, BVConst(n, i.T.Sort.W))
 }
 
